@@ -25,6 +25,10 @@ def scenarios(seed, n, prop="c15"):
             if rng.random() < 0.3:
                 c["cancel"] = rng.choice([{"writes": rng.randrange(2, 8)}, {"reports": rng.randrange(2, 10)}])
             callers.append(c)
+        if k % 4 == 3 and len(callers) < 3 and prop != "c17":
+            # a caller switching the interface's power supply while the others are under way
+            callers.append({"name": "P", "mode": "power", "unit": [["power", j] for j in range(rng.randrange(1, 3))],
+                            "start": rng.choice([{"time": 0.0}, {"writes": rng.randrange(1, 6)}, {"reports": rng.randrange(1, 8)}])})
         sc = {"driver": "tridonic", "callers": callers, "first_seq": 1, "trace_events": 1,
               "release_plan": [rng.choice([0, 1, 1, 2, -1]) for _ in range(rng.randrange(0, 30))], "tag": "trace:%d" % k}
         if prop == "c17" and rng.random() < 0.4:
@@ -135,6 +139,9 @@ def validate(traces, sc):
 MODEL_CFGS = {
     "c15": [("MC_AsyncDriver", "AsyncDriver_c15.cfg", None), ("MC_AsyncDriver", "AsyncDriver_cancel.cfg", None),
             ("MC_AsyncDriver", "AsyncDriver_cancel_old.cfg", "NoAssertion"),
+            # power_supply() requests: units of their own under the transaction lock; without the lock (seeded C15f) the
+            # model must break TxnAtomic
+            ("MC_AsyncDriver", "AsyncDriver_power.cfg", None), ("MC_AsyncDriver", "AsyncDriver_power_nolock.cfg", "TxnAtomic"),
             ("MC_SerialDriver", "SerialDriver_plain.cfg", None), ("MC_SerialDriver", "SerialDriver_cancelq.cfg", None),
             ("MC_SerialDriver", "SerialDriver_cancel_safe.cfg", None),
             ("MC_HassebDriver", "HassebDriver_plain.cfg", None), ("MC_HassebDriver", "HassebDriver_cancelq.cfg", None),
